@@ -146,6 +146,11 @@ def check_large_scalars(rep, tier):
             ('real-bin-huge-mant', tlv(0x09, b'\x80\x01' + b'\xff' * n), [None, univ.Real()]),
             ('rec-real', tlv(0x30, tlv(0x02, b'\x05') + tlv(0x09, b'\x01' + b'1' + b'0' * n)), [rec]),
             ('bits-long', tlv(0x03, b'\x07' + b'\xff' * n), [None, univ.BitString()]),
+            # identifiers with a tag number of thousands of digits: primitive, explicit wrapper, inside a record
+            ('huge-tag-prim', b'\x9f' + arc + b'\x01\x05', [None, univ.Integer(), univ.Sequence()]),
+            ('huge-tag-cons', b'\xbf' + arc + tlv(0x02, b'\x05')[:0] + bytes([3]) + tlv(0x02, b'\x05'), [None, univ.Integer(), rec]),
+            ('huge-tag-empty-explicit', b'\xbf' + arc + b'\x00', [None, univ.Integer()]),
+            ('huge-tag-in-record', tlv(0x30, b'\x9f' + arc + b'\x01\x05'), [None, rec, seqof]),
         ]
     for name, data, schemas in inputs:
         for schema in schemas:
@@ -197,6 +202,31 @@ def mutate(rng, data):
     return bytes(b)
 
 
+def length_rewrites(data, limit=24):
+    """framing damage that keeps every octet in place: the short-form length octet of one element made smaller or larger
+    (a container that ends inside its last child, a child that runs past its container, a parent that claims the tail)"""
+    from harness import wire
+    try:
+        root, end = wire.read_tlv(data)
+    except Exception:  # noqa
+        return
+    out = 0
+    for n, depth in wire.all_nodes(root):
+        if n.get('indef') or n['hdr_end'] - n['start'] < 2:
+            continue
+        pos = n['hdr_end'] - 1
+        ln = data[pos]
+        if ln >= 0x80 or data[n['start']] & 0x1f == 0x1f:
+            continue
+        for delta in (-1, -2, -3, 1, 2, -ln):
+            v = ln + delta
+            if 0 <= v < 0x80 and v != ln:
+                yield data[:pos] + bytes([v]) + data[pos + 1:]
+                out += 1
+                if out >= limit:
+                    return
+
+
 def run(rep, tier, seed):
     common.prove(rep)
     rng = common.rng_for(seed, 'C08')
@@ -216,7 +246,8 @@ def run(rep, tier, seed):
     rep.extra['exhaustive'] = False
     # corpus: witnesses of repaired leaks
     for h in ('3000', '30043000 3100'.replace(' ', ''), 'a0800000', '23800300 0000'.replace(' ', ''), '0428' + 'ff' * 40,
-              '84ffffffff', '3180318000000000'[:12], '2480240604016104016204016300'):
+              '84ffffffff', '3180318000000000'[:12], '2480240604016104016204016300',
+              '3001020105', '300230020500', 'a00530020201 05'.replace(' ', ''), '308030020201050000 0000'.replace(' ', '')):
         data = bytes.fromhex(h)
         rep.case('corpus ' + h)
         check_input(rep, drv, data, specs, tier)
@@ -264,6 +295,11 @@ def run(rep, tier, seed):
             data = mutate(rng, ie[1])
             rep.case(data.hex(), nontrivial=True, sample={'spec': gen.ty_sexp(case.t)[:200], 'bytes': data.hex()[:200]})
             check_input(rep, drv, data, own, tier)
+        if len(ie[1]) <= 300:
+            for data in length_rewrites(ie[1], 8 if tier == 'quick' else 24):
+                rep.case(data.hex(), nontrivial=True)
+                rep.count('length-rewrites')
+                check_input(rep, drv, data, own, tier)
     drv.close()
 
 
